@@ -228,6 +228,17 @@ def t_protocol_chunk(minutes=2):
                 consumed = None
         h.prove(g_price, 'protocol.chunk.the-current-price-is-the-close-of-the-consumed-part-while-the-order-executes')
         h.prove(ok, 'protocol.chunk.two-or-more-candidates-are-sorted-before-any-fill', {'events': [t_[0] for t_ in trace]})
+        # completeness for the orders that appear after the first fill: one that is priced on the part of the first minute's path
+        # that is still ahead is not left behind - whatever the other candidates are
+        splits = [t_ for t_ in trace if t_[0] == 'split']
+        if splits:
+            rem0 = splits[0][2][1]
+            ins = [ops.land(ops.compare('<=', rem0.e[4], o.f['price']), ops.compare('<=', o.f['price'], rem0.e[3])) for o in extra_orders]
+            act = [ops.equal(o.f['status'], 'ACTIVE') for o in extra_orders]
+            # the first candidate of the (sorted) list is tried on the whole remaining part; the second one, too, when the first is not
+            # reachable there (nothing consumes the path in between) - the sort itself is a contracted call (sort.path-order)
+            left = ops.land(ops.implies(act[0], ops.lnot(ins[0])), ops.implies(ops.lnot(ins[0]), ops.implies(act[1], ops.lnot(ins[1]))))
+            h.prove(left, 'protocol.chunk.a-candidate-priced-on-the-remaining-path-of-the-minute-is-not-left-behind')
     return t
 
 
